@@ -38,6 +38,8 @@ class _Dispatcher:
         self.log.append(('back', key)); self.contracts[key].back(frame); raise StopPath()
     def havoc(self, key, name, frame):
         return self.contracts[key].havoc(name, frame.get(name))
+    def cond(self, key, frame):
+        return self.contracts[key].cond(frame)
 
 DISPATCH = _Dispatcher()
 
@@ -88,6 +90,10 @@ def make_transform(funcs):
                         self.found.add((qn, k))
                         out.extend(self._cut_while(st_, key))
                         continue
+                    if key is not None and isinstance(st_, ast.For):
+                        self.found.add((qn, k))
+                        out.extend(self._cut_for(st_, key))
+                        continue
                     st_.body = self._cut_block(st_.body, qn, counter)
                     st_.orelse = self._cut_block(st_.orelse, qn, counter)
                     out.append(st_)
@@ -120,6 +126,28 @@ def make_transform(funcs):
                            body=w.body,
                            orelse=[ast.Expr(ast.Call(func=disp('back'), args=[k, frame], keywords=[]))])
             stmts.append(ast.If(test=w.test, body=[once], orelse=[]))
+            return stmts
+
+        def _cut_for(self, w, key):
+            """for v in it: B   ->   enter; havoc(names + loop variable); if cond(): once(B) else-back
+            (the contract's cond() models `iterator not exhausted`; the loop variable is havoc'd by the contract)"""
+            names, attrs = written_targets(w.body)
+            for e in ast.walk(w.target):
+                if isinstance(e, ast.Name): names.add(e.id)
+            k = ast.Constant(value=key)
+            frame = ast.Call(func=ast.Name(id='locals', ctx=ast.Load()), args=[], keywords=[])
+            disp = lambda m: ast.Attribute(value=ast.Name(id='__pvc_loop__', ctx=ast.Load()), attr=m, ctx=ast.Load())
+            stmts = [ast.Expr(ast.Call(func=disp('declare'), args=[k, ast.Tuple(elts=[ast.Constant(value=x) for x in sorted(names)], ctx=ast.Load()),
+                                                                      ast.Tuple(elts=[ast.Constant(value=x) for x in sorted(attrs)], ctx=ast.Load())], keywords=[])),
+                     ast.Expr(ast.Call(func=disp('enter'), args=[k, frame], keywords=[]))]
+            for n in sorted(names):
+                stmts.append(ast.Assign(targets=[ast.Name(id=n, ctx=ast.Store())],
+                                        value=ast.Call(func=disp('havoc'), args=[k, ast.Constant(value=n), frame], keywords=[])))
+            once = ast.For(target=ast.Name(id='__pvc_once', ctx=ast.Store()),
+                           iter=ast.Tuple(elts=[ast.Constant(value=0)], ctx=ast.Load()),
+                           body=w.body,
+                           orelse=[ast.Expr(ast.Call(func=disp('back'), args=[k, frame], keywords=[]))])
+            stmts.append(ast.If(test=ast.Call(func=disp('cond'), args=[k, frame], keywords=[]), body=[once], orelse=w.orelse))
             return stmts
 
     def transform(tree):
